@@ -36,6 +36,10 @@ def make_engine(prop: str, steer: List[str]):
         from .engine_e import EngineE
 
         return EngineE("C20", steer)
+    if prop in ("C05",):
+        from .engine_b import EngineB
+
+        return EngineB(prop, steer)
     raise KeyError(prop)
 
 
@@ -55,6 +59,7 @@ NOT_APPLICABLE = {
 }
 
 ENGINES = [
+    {"name": "object-heap", "path": "sim/engine_b.py", "serves_properties": ["C05", "C19"], "kind_free_text": "heap of live objects of all classes; catalogued operations, in-place perturbations and malformed requests; snapshot + alias-group reference model"},
     {"name": "generator-world", "path": "sim/engine_e.py", "serves_properties": ["C20"], "kind_free_text": "seed search over the stream-dependent generators (each call twice under the same global seed) plus direct oracles for the deterministic generators and the aggregating constructor"},
     {"name": "io-world", "path": "sim/engine_d.py", "serves_properties": ["C16"], "kind_free_text": "export/import histories over a small path namespace on a simulated open() with buffering configurations and injected OSError at the k-th write/flush/seek/close"},
     {"name": "solver-world/presentation", "path": "sim/engine_c18.py", "serves_properties": ["C18"], "kind_free_text": "paired runs of every decomposition algorithm in the simulated world (seed, verbosity, clock, interpreter, call history, representation, scale, relabelling)"},
@@ -215,5 +220,26 @@ CHECKS = {
         "state_measure": "hash of (generator, order, reducer, value function, density-or-count)",
         "components": {"real": REAL_ALL, "simulated": ["np.random global stream seeded per call", "recording value functions passed to the generators"]},
         "assumptions": ["floor or ceiling of size*density both accepted as the requested count"],
+    },
+    "C05": {
+        "manifest": {
+            "engine": "object-heap",
+            "design_ref": "DESIGN.md section 3, engine B",
+            "level_text": "Seeded search over histories on a heap of up to 14 live objects of all seven classes plus loose arrays: each step applies one of ~230 catalogued public operations (every class, constructors with both copy flags, module functions, the five algorithm entry points) to operands drawn from the heap, or injects a perturbation (an in-place write into one buffer of one live object at that instant). After every step: operands bit-identical to their snapshots, no result buffer shares memory (np.shares_memory, exact) with any live object outside its documented no-copy group, a perturbation is invisible in every object outside the perturbed alias group (so transitive chains are reached), in-place operations change their receiver's group only.",
+            "level_note": "Trusted: the snapshot/alias-group model (sim/engine_b.py Heap), np.shares_memory. Permitted sharing: copy=False constructors, to_tenmat/to_tensor(copy=False), identity of in-place operations, the caller's initial guess returned by an algorithm. Recorded known findings are tolerated by name only for the operation they were found on.",
+            "technique": "deterministic simulation: object-heap histories with perturbation (in-place write) injection against a snapshot + alias-group reference model",
+        },
+        "level": "exploration",
+        "quick": {"runs": 4000, "wall": 240},
+        "thorough": {"runs": 150000, "wall": 1500},
+        "chunk": 20,
+        "rule": (
+            "one case = one history: population of two shape families (dense, sparse, Kruskal, Tucker objects) then 8-25 steps, "
+            "each an operation from the catalogue or a perturbation; non-trivial = at least 3 operations checked and at least one "
+            "perturbation (or 6 operations); distinct = distinct digest of (steps, observations)."
+        ),
+        "state_measure": "hash of (operation, multiset of kinds on the heap, number of alias groups)",
+        "components": {"real": REAL_ALL, "simulated": ["np.random seeded per call", "clock / stdout / ARPACK seams as in the solver world (algorithms run inside it)", "perturbation injector"]},
+        "assumptions": ["user functions passed to tenfun/elemfun return fresh arrays"],
     },
 }
